@@ -146,6 +146,26 @@ def wl_bloom(ctx, rng, case):
             f = P.BloomFilterOnDisk(path, **bl.kw_hash(hf))
         else:
             f = f0
+        # the state under test also includes calls made on THIS object (an on-disk filter that was added to after opening) and
+        # states a refused call leaves behind (add_alt with too few / non-integer hashes raises part-way)
+        tail = []
+        for _ in range(rng.choice([0, 0, 1, 2, 3])):
+            r, kk = rng.random(), rng.choice(keys)
+            try:
+                if r < 0.45:
+                    f.add(kk, rng.randint(1, 3)) if counting else f.add(kk)
+                    tail.append("add")
+                elif r < 0.8:
+                    f.add_alt(f.hashes(kk)[: rng.randint(0, max(0, f.number_hashes - 1))])
+                    tail.append("add_alt(short) accepted")
+                else:
+                    f.add_alt(f.hashes(kk)[:-1] + ["x"])
+                    tail.append("add_alt(non-int) accepted")
+            except Exception as e:
+                tail.append(f"refused:{type(e).__name__}")
+                ctx.count("states_after_a_refused_call")
+        if tail:
+            case.op("tail", tail)
         other, _ = bl.reachable_bloom(P, rng, est, rate, hf, keys, counting=counting)
         other_before = state_bloom(other)
         before = state_bloom(f, path)
